@@ -315,6 +315,13 @@ func (c *CheckRun) runFallback() {
 	if bulk < 8 {
 		bulk = 8
 	}
+	// solver-pinned strategies are the expensive part: fewer of them when many instances need the fallback
+	switch {
+	case total > 60:
+		perPath = 1
+	case total > 20:
+		perPath = 2
+	}
 	n := 0
 	for _, inst := range c.Insts {
 		if !inst.Inconclusive() || inst.Harness == "H_C12_pair" {
